@@ -69,8 +69,10 @@ func c07Pipeline(c *rep.Ctx) {
 	step("rollforward < swapChain", sw[0], rfOK, "the chain mapping is swapped only after every block of the branch executed and validated")
 	// the veto is asked about the fork point
 	brStart := c.Prog.LookupField("chain", "reorganizer", "brStartBlock")
-	okArg := len(veto[0].Call.Args) == 1 && brStart != nil && readsField(info, veto[0].Call.Args[0], brStart) && containsCallTo(info, veto[0].Call.Args[0], "types.(*Block).BlockNo")
-	c.Check("pipeline", "chain.(*ChainService).reorg|veto-arg", veto[0].Call.Pos(), okArg, "NeedReorganization receives the number of the branch start block (fork point)")
+	// the argument of the veto is decided exactly (linear form, locals and header spellings resolved) by
+	// reorg-veto|...|argument in c08_gap.go, which is registered for C07 as well; the former check here
+	// (field read + BlockNo call somewhere in the argument) let `BlockNo()+1` pass and tripped on a local.
+	_, _ = brStart, info
 	// nothing that moves the state root precedes the veto
 	for _, s := range g.Calls(func(fn *types.Func, call *ast.CallExpr) bool {
 		if fn == nil {
